@@ -129,7 +129,7 @@ def leaves(mol, comps, level):
     for c in comps:
         levels.append(list(c) if level != 'lite2' else [c[0], c[-1]] if len(c) > 1 else [c[0]])
     levels.append(list(range(len(styles))))
-    levels.append(['graph', 'string'] if level != 'lite2' else ['graph'])
+    levels.append(['graph', 'string', 'graph-rev'] if level != 'lite2' else ['graph', 'graph-rev'])
 
     def succ(prefix):
         d = len(prefix)
@@ -206,8 +206,17 @@ def resolve(inp):
         full = s + '.' + fragstr
         cg, aa = MoleculeResolver.from_string(full).resolve_all()
         return cg, aa, full
+    if inp['via'] == 'graph-rev':
+        # same graph, nodes and edges inserted in reverse order (iteration order != key order)
+        import networkx as nx
+        B2 = nx.Graph()
+        for n in sorted(B.nodes, reverse=True):
+            B2.add_node(n, **B.nodes[n])
+        for a, b, d in sorted(B.edges(data=True), reverse=True):
+            B2.add_edge(b, a, **d)
+        B = B2
     cg, aa = MoleculeResolver.from_graph(fragstr, B).resolve_all()
-    return cg, aa, 'graph%s+%s' % (sorted(B.edges(data='order')), fragstr)
+    return cg, aa, 'graph%s%s+%s' % ('(reversed insertion)' if inp['via'] == 'graph-rev' else '', sorted(B.edges(data='order')), fragstr)
 
 
 def evaluate(inp):
